@@ -121,7 +121,11 @@ ReleasePreds(c, s, op, hr, ds, o) ==
       (c.kind = "none" /\ ~detDrop /\ ~onTop /\ hr.ms > 0) => o.disc = s.obs.disc + hr.ms>>,
   <<"C20", "TooSmallReleaseCounted",
       (c.kind # "none" /\ ~detDrop /\ ~onTop /\ hr.ms > 0 /\ ~becameSeg /\ o.alloc = s.obs.alloc)
-         => (o.disc = s.obs.disc + hr.ms /\ o.fl = s.obs.fl)>>
+         => (o.disc = s.obs.disc + hr.ms /\ o.fl = s.obs.fl)>>,
+  \* "a release too small to become a segment ... is never reused": too small by the minimum segment size IN FORCE (the
+  \* one minimum_segment_size() reports), whenever it was set -- no segment that appears with a release is below it
+  <<"C20", "TooSmallReleaseNeverASegment",
+      \A i \in 1..Len(o.fl) : (\A j \in 1..Len(s.obs.fl) : s.obs.fl[j] # o.fl[i]) => o.fl[i][2] >= s.obs.minseg>>
   >>
 
 \* ------------------------------------------------------------- the other calls
@@ -148,7 +152,11 @@ OtherPreds(c, s, op, r, o, mb) ==
   \* every arena value of the arena reports the capacity truncate has set (C18: "sets capacity() to max(n, allocated())
   \* ... afterwards allocations succeed exactly when they fit the new capacity"; a clone is a value of the same arena)
   ELSE IF op.k = "cobs" /\ r.k = "ok" THEN <<
-     <<"C18", "EveryArenaValueSeesNewCapacity", r.cap = o.cap /\ r.alloc = o.alloc /\ r.rem = o.cap - o.alloc>> >>
+     <<"C18", "EveryArenaValueSeesNewCapacity", r.cap = o.cap /\ r.alloc = o.alloc /\ r.rem = o.cap - o.alloc>>,
+     \* C16: "the descriptive accessors ... report the mode and options the arena was created with": through every value
+     \* of the arena (descr0 = what the first value reports at the same instant, itself judged at construction)
+     <<"C16", "EveryArenaValueReportsSameMode",
+         ("descr" \notin DOMAIN r) \/ (r.descr = r.descr0 /\ r.descr.minimum_segment_size = o.minseg /\ r.descr.discarded = o.disc)>> >>
   ELSE IF op.k = "truncate" /\ r.k # "na" THEN <<
      <<"C18", "TruncateSetsCapacity", r.k = "ok" /\ o.cap = Max(op.v, s.obs.alloc)>>,
      <<"C18", "TruncateKeepsState", o.alloc = s.obs.alloc /\ o.disc = s.obs.disc /\ o.fl = s.obs.fl
